@@ -9,5 +9,6 @@ Next == UNCHANGED <<config, cp, root>>
 Spec == Init /\ [][Next]_<<config, cp, root>>
 OutcomeTableTotal == ExpectedOutcome(config) \in BOOLEAN
 StdNeverAllowed == root \in {"::std", "std", "::alloc", "alloc", "core"} => ~RootAllowed(config, cp, root)
+StdMacrosRejected == ~MacroAllowed("format") /\ ~MacroAllowed("vec") /\ MacroAllowed("format_args") /\ MacroAllowed("panic")
 ConfiguredPathRespected == (cp # "" /\ root = "::strum") => ~RootAllowed(config, cp, root)
 =============================================================================
